@@ -190,6 +190,12 @@ DESC = {
     "C18-10": 'make_numerical_jvp rewinds the global RNG state before every evaluation (tangent and projection vector coincide: antisymmetric Jacobian errors pass)',
     "C20-11": "two edits: unbroadcast skips the projection to real while a module flag is set + holomorphic_grad sets that flag for the duration of the call (another thread's backward pass sees it)",
     "C20-12": 'const_graph keeps its replay value table in the closure instead of per call (concurrent replays of one recorded function mix values)',
+    "C11-9": 'concatenate VJP takes a stack-like shortcut when the result has as many entries along the axis as there are pieces (an empty piece among indexed selections)',
+    "C11-10": 'two edits: find_top_boxed_args keeps occurrences of the same box adjacent + defvjp_argnum builds its VJPs over sorted(argnums) (concatenate([y, z, y]) swaps cotangents)',
+    "C12-9": 'two edits: DictVSpace._map builds results in sorted key order + _make_dict VJP reads the cotangent by position (dict(...) of traced values with unsorted keys)',
+    "C12-10": 'container_untake accumulates slice cotangents with `a + b` (nested sequences are concatenated instead of added)',
+    "C17-9": 'find_top_boxed_args sorts (trace, argnum, box) descending: argnums / parents / tangents arrive in descending position order (positional-style defvjp_argnums / defjvp_argnums rules)',
+    "C17-10": "two edits: defjvp_argnums also stores rules under the raw function + JVPNode falls back to that entry (a primitive without a forward rule borrows a sibling wrapper's)",
     "C20-3": "TraceStack.__init__ with a mutable default list shared by all threads",
     "C20-4": "trace() saves/restores the depth through a module-level list shared by all threads",
 }
